@@ -59,47 +59,93 @@ func (c *Ctx) goSites() []goSite {
 	return out
 }
 
-// exitEvidence: what makes a loop leave.
+// loopExitKinds: for every edge leaving the loop (or return inside it) the kinds of the
+// conditions that decide it. Edges into a block that only panics ("blocking select matched
+// no case") are not exits.
 func (c *Ctx) loopExitKinds(hdr *ssa.BasicBlock) []string {
 	f := hdr.Parent()
 	kinds := map[string]bool{}
 	inL := func(b *ssa.BasicBlock) bool { return sameLoop(hdr, b) }
-	// bounded range loops
 	if r := rangedOperand(hdr); r != "" {
 		kinds["bounded-range"] = true
 	}
+	panics := func(b *ssa.BasicBlock) bool {
+		if len(b.Instrs) == 0 {
+			return false
+		}
+		_, ok := b.Instrs[len(b.Instrs)-1].(*ssa.Panic)
+		return ok
+	}
+	addCond := func(cond ssa.Value, pol bool) {
+		for {
+			u, ok := cond.(*ssa.UnOp)
+			if !ok || u.Op != token.NOT {
+				break
+			}
+			cond, pol = u.X, !pol
+		}
+		// select arm: index == k
+		if bo, ok := cond.(*ssa.BinOp); ok && bo.Op == token.EQL {
+			if ex, ok := bo.X.(*ssa.Extract); ok && ex.Index == 0 {
+				if sel, ok := ex.Tuple.(*ssa.Select); ok {
+					if k, ok := constInt(bo.Y); ok && pol && int(k) < len(sel.States) {
+						st := sel.States[k]
+						if st.Dir == types.RecvOnly && isDoneChan(st.Chan) {
+							kinds["ctx-done"] = true
+						} else if st.Dir == types.RecvOnly {
+							kinds["select-recv"] = true
+						} else {
+							kinds["select-send"] = true
+						}
+					}
+					return
+				}
+			}
+		}
+		for _, k := range c.condKinds(cond, 0) {
+			kinds[k] = true
+		}
+	}
 	for _, b := range f.Blocks {
-		if !inL(b) {
+		if len(b.Instrs) == 0 || !dominates(hdr, b) {
 			continue
 		}
-		leaves := false
-		for _, s := range b.Succs {
-			if !inL(s) {
-				leaves = true
+		type exit struct{ edge int }
+		var exits []exit
+		// returns anywhere in the region the header dominates (a select arm that returns is
+		// not part of the natural loop, it cannot reach the header again)
+		if blockReturns(b) != nil {
+			exits = append(exits, exit{-1})
+		}
+		if inL(b) {
+			for i, s := range b.Succs {
+				if !inL(s) && !panics(s) {
+					exits = append(exits, exit{i})
+				}
 			}
 		}
-		isRet := blockReturns(b) != nil
-		if !leaves && !isRet {
+		if len(exits) == 0 {
 			continue
 		}
-		// what decided that we are in this block / take this edge: walk the dominating conditions inside the loop
-		for _, d := range f.Blocks {
-			if !inL(d) || len(d.Instrs) == 0 {
-				continue
+		for _, e := range exits {
+			if iff, ok := b.Instrs[len(b.Instrs)-1].(*ssa.If); ok && e.edge >= 0 {
+				addCond(iff.Cond, e.edge == 0)
 			}
-			iff, ok := d.Instrs[len(d.Instrs)-1].(*ssa.If)
-			if !ok {
-				continue
+			// conditions whose outcome led into b
+			for _, d := range f.Blocks {
+				if !dominates(hdr, d) || len(d.Instrs) == 0 || d == b {
+					continue
+				}
+				iff, ok := d.Instrs[len(d.Instrs)-1].(*ssa.If)
+				if !ok {
+					continue
+				}
+				if branchCovers(d.Succs[0], b) && !branchCovers(d.Succs[1], b) {
+					addCond(iff.Cond, true)
+				} else if branchCovers(d.Succs[1], b) && !branchCovers(d.Succs[0], b) {
+					addCond(iff.Cond, false)
+				}
 			}
-			if !(d == b || dominates(d, b)) {
-				continue
-			}
-			for _, k := range c.condKinds(iff.Cond, 0) {
-				kinds[k] = true
-			}
-		}
-		if isRet && dominates(hdr, b) {
-			// return reached through a select arm
 		}
 	}
 	var out []string
@@ -133,12 +179,9 @@ func (c *Ctx) condKinds(v ssa.Value, depth int) []string {
 	case *ssa.Extract:
 		switch t := x.Tuple.(type) {
 		case *ssa.Select:
-			for _, s := range t.States {
-				if s.Dir == types.RecvOnly && isDoneChan(s.Chan) {
-					out = append(out, "ctx-done")
-				} else if s.Dir == types.RecvOnly {
-					out = append(out, "chan-recv")
-				}
+			// a value (or its ok flag) received in a select arm: closing the channel decides
+			if x.Index >= 1 {
+				out = append(out, "chan-recv")
 			}
 		case *ssa.UnOp:
 			if t.Op == token.ARROW && t.CommaOk {
